@@ -34,6 +34,7 @@ type c11Read struct {
 	Want     c11Val `json:"want"`
 	Desc     string `json:"desc"`
 	Reuse    bool   `json:"decode_into_used_struct,omitempty"`
+	Span     bool   `json:"span_cache,omitempty"`
 }
 
 // a previous message with all fields set and a two-entry map (decoded first when Reuse is set)
@@ -202,12 +203,27 @@ func c11Write(c *mc.Ctx, v c11Val) {
 }
 
 func c11ReadOne(c *mc.Ctx, k c11Read, in []byte) {
+	if k.StructN == len(in) || k.Span { // inputs without trailing bytes also run with the span-cache allocator switched on
+		in2 := append([]byte{}, in...)
+		k2 := k
+		k2.Span = true
+		thrift.SetSpanCache(true)
+		c11ReadOneSpan(c, k2, in2)
+		thrift.SetSpanCache(false)
+		if k.Span {
+			return
+		}
+	}
+	c11ReadOneSpan(c, k, in)
+}
+
+func c11ReadOneSpan(c *mc.Ctx, k c11Read, in []byte) {
 	c.Eval(1)
 	inHex := hex.EncodeToString(in)
 	shown := mc.Hex(in)
 	bad := func(class, format string, a ...interface{}) {
 		k.InputHex = inHex
-		c.Violate("read", fmt.Sprintf("C11|%s|read|%s", k.Kind, class), fmt.Sprintf("%s.FastRead on %s (%s): ", k.Kind, shown, k.Desc)+fmt.Sprintf(format, a...), k)
+		c.Violate("read", fmt.Sprintf("C11|%s|read|%s", k.Kind, class), fmt.Sprintf("%s.FastRead on %s (%s; span cache %v): ", k.Kind, shown, k.Desc, k.Span)+fmt.Sprintf(format, a...), k)
 	}
 	pi := mc.Try(func() {
 		var n int
